@@ -142,7 +142,9 @@ def apply_cmd(m, bag, e, cmd, a, b, day, fresh):
         bag.items = keep
         return ''
     if cmd == 3:
-        _, r = scen.run_model(None, [C('empty', [], e, now=now, cwd='/')], model=m)
+        # (every third time interactively, answered y: consent given means purged)
+        inter = (a % 3 == 2)
+        _, r = scen.run_model(None, [C('empty', ['-i'] if inter else [], e, now=now, cwd='/', stdin=['y'] if inter else [])], model=m)
         if r[0]['exc']:
             return rt.fail('C09:empty-traceback', r[0]['exc'])
         bag.items = []
